@@ -126,10 +126,10 @@ def gen_cases(rng, tier):
     for caps in (NOCAPS, {"nice": True, "admin": False, "resource": False}, {"nice": False, "admin": True, "resource": False},
                  {"nice": False, "admin": False, "resource": True}):
         tag = "+".join(k for k in ("nice", "admin", "resource") if caps[k]) or "nocaps"
-        for start, soft13 in ((0, 0), (5, 0), (0, 25), (-3, 30), (10, 15))[:5 if tier == "thorough" else 3]:
+        for start, soft13 in ((0, 0), (0, 25), (5, 0), (-3, 30), (10, 15))[:5 if tier == "thorough" else 2]:
             rl = [list(x) for x in DEFAULT_RLIM]
             rl[13] = [soft13, 40]
-            for v in (-20, -10, -6, -5, -4, -1, 0, 4, 5, 6, 10, 19, -21, 25) if tier == "thorough" else (-20, -6, -5, -4, 0, 4, 5, 6, 19, -21):
+            for v in (-20, -10, -6, -5, -4, -1, 0, 4, 5, 6, 10, 19, -21, 25) if tier == "thorough" else (-20, -6, -5, -4, 0, 6, 19, -21):
                 cases.append(_sim("perm-nice-" + tag, plain, ["nice", v], nice=start, rlim=rl, caps=caps))
         for c in (0, 1, 2, 3):
             for v in (None, 0, 4, 7, 8):
@@ -145,7 +145,7 @@ def gen_cases(rng, tier):
     cases.append(_sim("perm-rlimit-nr_open", plain, ["rlimit", 7, [10, 2000]], nr_open=1999))
     cases.append(_sim("perm-rlimit-nr_open", plain, ["rlimit", 7, [10, 2000]], nr_open=2000))
     # ioprio_get reporting the effective class (kernels >= 5.18)
-    for nice0 in (-20, -7, 0, 3, 19):
+    for nice0 in (-20, -7, 0, 3, 19) if tier == "thorough" else (-20, 3, 19):
         for c in (None, 0, 1, 2, 3):
             for v in (None, 0, 5):
                 cases.append(_sim("ionice-effective-get", plain, ["ionice", c, v], nice=nice0, ioprio=rng.choice([0, (2 << 13) | 7, 3 << 13]),
@@ -160,8 +160,10 @@ def gen_cases(rng, tier):
         cases.append(_sim("rlimit-representation", plain, ["rlimit", 2, pair]))
     # the status parser alone: arbitrary lines before the key line, arbitrary text after it
     cases.extend(_status_cases(rng, 60 if tier == "quick" else 1500 if tier == "thorough" else 200))
+    # ---------------- handle histories: Process / Popen objects whose pid is gone, recycled or still the same process
+    cases.extend(_hist_cases(rng, tier))
     # ---------------- random states / requests
-    n_rand = {"quick": 120, "thorough": 6000, "search": 400}[tier]
+    n_rand = {"quick": 80, "thorough": 6000, "search": 400}[tier]
     if tier == "thorough":
         el8 = list(range(2, 10))
         sit8 = ("plain8", el8, None, 12)
@@ -216,6 +218,38 @@ def _random_sim(rng):
              ioprio=rng.choice([0, (1 << 13) | 3, (2 << 13) | 7, 3 << 13, (2 << 13)]), rlim=rlim, extra_by=rng.random() < 0.5,
              caps=caps, nr_open=rng.choice([1048576, 1024, 2 ** 40]), eff=rng.random() < 0.3)
     return c
+
+
+HIST_REQS = [["nice", 5], ["nice", -3], ["ionice", 2, 4], ["ionice", 3, None], ["aff", [1, 0]], ["aff", []], ["aff", [99]],
+             ["rlimit", 3, [5, INF]], ["rlimit", 7, [10, 20]], ["rlimit_scalar", 4, 5]]
+T0, T1 = 5000, 9000          # start time of the process the handle is created for / of the process that recycled the pid
+
+
+def _hist(handle, reap, state, req, pre_gone=False):
+    sit = ("plain", [0, 1, 2, 3, 4, 5], None, 8)
+    c = _sim("hist-%s-%s-%s%s" % (handle, reap, state, "-pregone" if pre_gone else ""), sit, req, nice=2, ioprio=(2 << 13) | 6, extra_by=False)
+    c["kind"] = "hist"
+    c.update(handle=handle, reap=reap, state=state, pre_gone=pre_gone)
+    if state == "gone":
+        c["procs"] = [p for p in c["procs"] if p["pid"] != c["pid"]]
+    return c
+
+
+def _hist_cases(rng, tier):
+    out = []
+    reqs = HIST_REQS if tier != "quick" else [HIST_REQS[i] for i in (0, 2, 4, 5, 7)]
+    for req in reqs:
+        for reap in ("none", "wait", "poll", "communicate", "with"):
+            for state in ("gone", "recycled"):
+                out.append(_hist("Popen", reap, state, req))
+        for reap in ("none", "wait"):
+            for state in ("gone", "recycled"):
+                out.append(_hist("Process", reap, state, req))
+        out.append(_hist("Popen", "none", "same", req))
+        out.append(_hist("Process", "none", "same", req))
+        for state in ("gone", "recycled"):
+            out.append(_hist("Popen", rng.choice(["none", "wait", "poll"]), state, req, pre_gone=True))
+    return out
 
 
 STATUS_LINES = [b"Name:\tsleep", b"Name:\tCpus_allowed_list:\t0-1", b"Name:\tCpus_allowed_list:", b"Umask:\t0022", b"State:\tS (sleeping)",
@@ -355,7 +389,7 @@ def _live_cases(rng, tier):
             c["fresh"] = True
             out.append(c)
         out.append(_live("live-rlimit-get", elig, ncpu, ["rlimit", res, None], rlim=base))
-        for lim in ([], [1], [1, 2, 3], [5, 3]):
+        for lim in ([], [1], [1, 2, 3], [5, 3]) if (tier != "quick" or res in (0, 7, 13, 15)) else ([1],):
             out.append(_live("live-rlimit-invalid", elig, ncpu, ["rlimit", res, lim], rlim=base))
         out.append(_live("live-rlimit-scalar", elig, ncpu, ["rlimit_scalar", res, 5], rlim=base))
         if H != INF:
@@ -423,6 +457,13 @@ def coq_term(case):
     k = "(Build_kernel %s %s %s %s %s %s %s %s)" % (G.lst([_proc_term(p) for p in case["procs"]]), G.z(case["ncpu"]), G.z(case["nr"]),
                                                     G.bo(c["nice"]), G.bo(c["admin"]), G.bo(c["resource"]), G.z(case["nr_open"]),
                                                     G.bo(case["ioget_eff"]))
+    if case["kind"] == "hist":
+        h = "(Build_handle %s %s %s %s false %s)" % ({"Popen": "HPopen", "Process": "HProcess"}[case["handle"]], G.z(case["pid"]), G.z(T0),
+                                                     G.bo(case["pre_gone"]),
+                                                     {"none": "NotReaped", "wait": "ByWait", "poll": "ByPoll", "communicate": "ByCommunicate",
+                                                      "with": "ByWith"}[case["reap"]])
+        occ = {"gone": "None", "recycled": "(Some %s)" % G.z(T1), "same": "(Some %s)" % G.z(T0)}[case["state"]]
+        return "run_hist %s %s %s %s" % (h, occ, k, _req_term(case["req"]))
     return "run_case %s %s %s" % (k, G.z(case["pid"]), _req_term(case["req"]))
 
 
@@ -436,6 +477,13 @@ def _expand(case, dump):
 def coq_struct(case, raw):
     if case["kind"] == "status":
         return {"printed": raw[0], "model": raw[1], "spec": None}
+    if case["kind"] == "hist":
+        if raw[6] is not True:
+            raise RuntimeError("C18 generator produced an ill-formed kernel state: %r" % (case,))
+        spec = raw[5]
+        if spec is not None:
+            spec = [spec[0], _expand(case, spec[1])]
+        return {"printed": raw[0], "model": [raw[1], _expand(case, raw[2]), raw[3], raw[4]], "spec": spec}
     raw[3] = _expand(case, raw[3])
     if raw[5] is not None:
         raw[5][2] = _expand(case, raw[5][2])
@@ -453,6 +501,17 @@ def judge(case, coq, impl):
         return Verdict("skip", str(impl.get("a")))
     if case["kind"] == "status":
         return Verdict("ok") if impl == coq["model"] else Verdict("corr", "_get_eligible_cpus(): impl != model")
+    if case["kind"] == "hist":
+        # impl = [answer, state of every process afterwards, was a native set call entered?, [_gone, _pid_reused]]
+        if coq["spec"] is not None:
+            if impl[:2] != coq["spec"]:
+                return Verdict("violation", "impl != spec")
+            if case["state"] == "recycled" and impl[2]:
+                return Verdict("violation", "a setter system call was issued for a recycled pid")
+        mo = coq["model"]
+        if impl[0] != mo[0] or impl[1] != mo[1] or impl[3] != mo[3] or (mo[2] is False and impl[2]):
+            return Verdict("corr", "impl != model")
+        return Verdict("ok")
     m = coq["model"][0]
     if isinstance(m, dict) and m.get("t") == "OutOfModel":
         return Verdict("skip", "OutOfModel")
@@ -519,6 +578,8 @@ def impl_run(case, coq, env):
         return _run_sim(case, coq, env)
     if case["kind"] == "status":
         return _run_status(case, coq, env)
+    if case["kind"] == "hist":
+        return _run_hist(case, coq, env)
     import platform
     if platform.machine() != "x86_64" or os.geteuid() != 0:
         return T("Skip", "live cases need root on x86_64")
@@ -538,6 +599,114 @@ def _run_status(case, coq, env):
     fp.write(4242, "status", unB(coq["printed"]))
     p = psutil.Process(4242)
     return outcome(p._proc._get_eligible_cpus, _conv)
+
+
+def _run_hist(case, coq, env):
+    """A real child spawned through psutil.Popen (or wrapped in psutil.Process); /proc is the fake tree, in which the child
+    appears with start time T0; its exit status is collected through the handle in the stated way; then the fake tree shows
+    nobody / somebody else (start time T1) / the same process under that pid, and one set form is called through the handle
+    with the native set calls replaced by the SimKernel (which records every call)."""
+    import copy
+    import resource
+    import signal
+    import subprocess
+    import time
+    import psutil
+    from psutil import _psutil_linux as cext
+    from psutil import _psutil_posix as cext_posix
+    from pv import fakeproc
+    root = os.path.join(env["work"], "proc")
+    fp = fakeproc.FakeProc(root)
+    with open(os.path.join(root, "stat"), "wb") as f:
+        f.write(b"cpu  10 0 10 100 0 0 0 0 0 0\n" + b"".join(b"cpu%d 1 0 1 10 0 0 0 0 0 0\n" % i for i in range(case["ncpu"]))
+                + b"intr 5\nctxt 7\nbtime 1500000000\nprocesses 3\nprocs_running 1\nprocs_blocked 0\nsoftirq 9\n")
+    fakeproc.attach(psutil, root)
+    status = {q: unB(b) for q, b in coq["printed"]}
+    real_popen = subprocess.Popen
+
+    def show(pid, starttime):
+        fp.add(pid, comm=b"sleep", starttime=starttime)
+        if case["pid"] in status:
+            fp.write(pid, "status", status[case["pid"]])
+
+    class Hooked(real_popen):
+        def __init__(self, *a, **k):
+            super().__init__(*a, **k)
+            if not case["pre_gone"]:
+                show(self.pid, T0)
+
+    subprocess.Popen = Hooked
+    try:
+        if case["handle"] == "Popen":
+            p = psutil.Popen(["sleep", "30"])
+            child = None
+        else:
+            child = Hooked(["sleep", "30"])
+            p = psutil.Process(child.pid)
+    finally:
+        subprocess.Popen = real_popen
+    pid = p.pid
+    alive = True
+    try:
+        if case["reap"] != "none" or case["state"] != "same":
+            os.kill(pid, signal.SIGKILL)
+            alive = False
+        if case["reap"] == "wait":
+            p.wait()
+        elif case["reap"] == "poll":
+            while p.poll() is None:
+                time.sleep(0.002)
+        elif case["reap"] == "communicate":
+            p.communicate()
+        elif case["reap"] == "with":
+            with p:
+                pass
+        elif not alive:
+            os.waitpid(pid, 0)           # somebody else collected it; the handle was not told
+        # what the kernel shows under that pid now
+        if case["state"] == "gone":
+            fp.remove(pid)
+        elif case["state"] == "recycled":
+            show(pid, T1)
+        elif case["pre_gone"]:
+            show(pid, T0)
+        kc = copy.deepcopy(case)
+        for pr in kc["procs"]:
+            if pr["pid"] == case["pid"]:
+                pr["pid"] = pid
+        for pr in kc["procs"]:
+            if pr["pid"] != pid:
+                fp.add(pr["pid"], comm=b"other")
+        sk = S.SimKernel(kc)
+        calls = []
+
+        def counted(name):
+            f = getattr(sk, name)
+
+            def g(*a, **k):
+                if name != "prlimit" or len(a) > 2 or "limits" in k:
+                    calls.append(name)
+                return f(*a, **k)
+            return g
+        saved = [(cext_posix, "getpriority"), (cext_posix, "setpriority"), (cext, "proc_ioprio_get"), (cext, "proc_ioprio_set"),
+                 (cext, "proc_cpu_affinity_get"), (cext, "proc_cpu_affinity_set"), (resource, "prlimit")]
+        orig = [(m, n, getattr(m, n)) for m, n in saved]
+        try:
+            for m, n in saved:
+                setattr(m, n, counted(n) if n in ("setpriority", "proc_ioprio_set", "proc_cpu_affinity_set", "prlimit") else getattr(sk, n))
+            res = _out(_call(p, case["req"]), _conv, {pid: case["pid"]})
+        finally:
+            for m, n, f in orig:
+                setattr(m, n, f)
+        dump = [[case["pid"] if e[0] == pid else e[0]] + e[1:] for e in sk.dump()]
+        return [res, dump, bool(calls), [bool(p._gone), bool(p._pid_reused)]]
+    finally:
+        if alive:
+            try:
+                os.kill(pid, signal.SIGKILL)
+                os.waitpid(pid, 0)
+            except OSError:
+                pass
 
 
 def _run_sim(case, coq, env):
